@@ -55,6 +55,15 @@ func c02ops() []c02op {
 		{"concat", []int{mSeq, mSeq}, toL, func(a []string, c int) string { return f("(concat %s %s)", a[0], a[1]) }, nil},
 		{"concat-lit", []int{mSeq}, toL, func(a []string, c int) string { return f("(concat %s [%d])", a[0], c) }, nil},
 		{"concat3", []int{mSeq}, toL, func(a []string, c int) string { return f("(concat %s [%d] (list %d))", a[0], c, c+1) }, nil},
+		{"concat-empty-first", []int{mSeq}, toL, func(a []string, c int) string { return f("(concat () %s [%d])", a[0], c) }, nil},
+		{"apply-concat-empty-first", []int{mSeq}, toL, func(a []string, c int) string { return f("(apply concat (list (list) %s (list %d)))", a[0], c) }, nil},
+		{"swap-keeps-rest-args-1", nil, func([]int) int { return kL }, func(a []string, c int) string {
+			return f("(do (swap! at1 (fn [old & evs] evs) %d %d) (deref at1))", c, c+1)
+		}, nil},
+		{"swap-keeps-rest-args-2", nil, func([]int) int { return kL }, func(a []string, c int) string {
+			return f("(do (swap! at2 (fn [old & evs] evs) %d %d) (deref at2))", c, c+1)
+		}, nil},
+		{"map-rest-fn", []int{mSeq}, toL, func(a []string, c int) string { return f("(map (fn [& xs] xs) %s)", a[0]) }, nil},
 		{"cons", []int{mSeq}, toL, func(a []string, c int) string { return f("(cons %d %s)", c, a[0]) }, nil},
 		{"assoc-vec", []int{mV}, same, func(a []string, c int) string { return f("(assoc %s 0 %d)", a[0], c) }, nil},
 		{"assoc-map", []int{mM}, same, func(a []string, c int) string { return f("(assoc %s :a %d :c%d %d)", a[0], c, c, c) }, nil},
@@ -119,6 +128,8 @@ var c02seedNames = []string{"v0", "l1", "l2", "m3", "s4", "v5", "pk"}
 var c02seedKinds = []int{kV, kL, kL, kM, kS, kV, kP}
 
 const c02prelude = `(do
+ (def at1 (atom nil))
+ (def at2 (atom nil))
  (defmacro mxq (fn [s & xs] (list 'concat s (list 'quote (concat xs (quote (77)))))))
  (def frest (fn [s & xs] (concat xs s))))`
 
